@@ -754,9 +754,82 @@ func (g *gen) genV2() {
 	}
 }
 
+// genUpload: the upload-carrying request kinds only (focus=uploads, used by C02's second engine): RHP3 programs
+// that store or re-reference sectors and are finalised, RHP2 writes; mostly valid (only an accepted request can
+// commit a reference to unsynced data), a few finalised wrongly as negative controls.
+func (g *gen) genUpload() {
+	if g.r.Chance(1, 3) {
+		var acts []string
+		for i := 0; i < 1+g.r.Intn(3); i++ {
+			switch g.r.Intn(6) {
+			case 0, 1, 2:
+				acts = append(acts, "A")
+			case 3:
+				acts = append(acts, fmt.Sprintf("S:%d:%d", g.r.Intn(3), g.r.Intn(3)))
+			case 4:
+				acts = append(acts, "T:1")
+			default:
+				acts = append(acts, "A", fmt.Sprintf("S:0:%d", 3))
+			}
+		}
+		sig := "ok"
+		if g.r.Chance(1, 10) {
+			sig = "bad"
+		}
+		g.emit("v2write n=3 acts=[%s] proof=%d pay=ok sig=%s", strings.Join(acts, ","), g.r.Intn(2), sig)
+		return
+	}
+	c := x3case{n: 3, fcid: 1, budget: "5000000000000000000000000", pay: "acct", fin: "ok"}
+	n := uint64(3)
+	appendSector := func() {
+		g.seq++
+		o := c.b.blob(sectorSize, "sector:%d", g.seq+g.r.Uint64()%1000000*1000)
+		c.prog = append(c.prog, fmt.Sprintf("AS:%d:%d", o, g.r.Intn(2)))
+		n++
+	}
+	switch g.r.Intn(8) {
+	case 0, 1:
+		appendSector()
+	case 2:
+		appendSector()
+		ao := c.b.word(uint64(g.r.Intn(int(n))))
+		bo := c.b.word(n - 1)
+		c.prog = append(c.prog, fmt.Sprintf("SW:%d:%d:%d", ao, bo, g.r.Intn(2)))
+	case 3:
+		g.seq++
+		o := c.b.blob(sectorSize, "sector:%d", g.seq+g.r.Uint64()%1000000*1000)
+		c.prog = append(c.prog, fmt.Sprintf("SS:%d:%d", o, 1+g.r.Intn(100)))
+		c.fcid = g.r.Intn(2)
+	case 4:
+		do := c.b.blob(64, "fill:64:%d", 1+g.r.Intn(200))
+		c.prog = append(c.prog, fmt.Sprintf("US:%d:64:%d:0", uint64(g.r.Intn(3))*sectorSize+uint64(g.r.Intn(1000))*64, do))
+	case 5:
+		appendSector()
+		do := c.b.blob(64, "fill:64:%d", 1+g.r.Intn(200))
+		c.prog = append(c.prog, fmt.Sprintf("US:%d:64:%d:0", (n-1)*sectorSize+uint64(g.r.Intn(1000))*64, do))
+	case 6:
+		appendSector()
+		co := c.b.word(1 + g.r.Uint64()%2)
+		c.prog = append(c.prog, fmt.Sprintf("DS:%d:%d", co, g.r.Intn(2)))
+	default:
+		o := c.b.blob(32, "root:%d", g.r.Intn(3))
+		c.prog = append(c.prog, fmt.Sprintf("AR:%d:%d:1", o, g.r.Intn(2)))
+	}
+	if g.r.Chance(1, 10) {
+		c.fin = vhlib.Pick(g.r, "badsig", "drop", "samerev")
+	}
+	g.emitX3(c)
+}
+
 // generate: cfg.N wire-level cases and cfg.N*cfg.Len in-process cases.
 func generate(cfg vhlib.Config) []string {
 	g := &gen{r: vhlib.NewRand(cfg.Seed)}
+	if cfg.Extra["focus"] == "uploads" {
+		for i := 0; i < cfg.N; i++ {
+			g.genUpload()
+		}
+		return g.out
+	}
 	l1 := cfg.N * cfg.Len
 	for i := 0; i < l1; i++ {
 		switch x := g.r.Intn(100); {
